@@ -315,6 +315,8 @@ def phonopy_events(ctx):
     from harness.oracle import Oracle, adj3, det3 as odet
 
     rng = ctx.rng
+    nprng_l = np.random.default_rng(ctx.seed + 23)
+    n_loose = 0
     events = []
     cases = PHONOPY_CASES if not ctx.quick else PHONOPY_CASES[::2]
     for entry, S, P in cases:
@@ -333,6 +335,24 @@ def phonopy_events(ctx):
             svecs, multi = ph.primitive.get_smallest_vectors()
             tables[dense] = (ph, svecs, multi)
         ph = tables[True][0]
+        ideal_pcell = ph.primitive.cell.copy()
+        # the same crystal, slightly strained (edge lengths off by ~1e-4, far more than the default tolerance of 1e-5),
+        # in an object built with symprec=1e-3: images that tie in the ideal crystal differ by up to a few 1e-4 and are
+        # "within the symmetry tolerance" of THIS object, so its tables must be the ideal ones.  Vectors are stored in
+        # primitive-cell coordinates and are mapped back with the ideal cell.
+        loose = {}
+        cell_l = orc.unitcell()
+        eps = nprng_l.uniform(-2e-5, 2e-5, size=(3, 3))
+        cell_l.cell = cell_l.cell @ (np.eye(3) + eps)
+        try:
+            for dense in (True, False):
+                phl = Phonopy(cell_l, supercell_matrix=S, primitive_matrix=P, store_dense_svecs=dense, symprec=1e-3)
+                svl, mul = phl.primitive.get_smallest_vectors()
+                loose[dense] = (phl, svl, mul)
+        except Exception as e:
+            ctx.violation("impl:exception:loose", "Phonopy(symprec=1e-3) on a crystal strained by 2e-5 raised %s"
+                          % type(e).__name__, dict(entry=entry, S=S, P=P, error=repr(e)))
+            loose = {}
         sup_u, r1 = xtal.project_to_unit(ph.supercell.positions, orc.L, D0)
         p2s = ph.primitive.p2s_map
         pairs = [(k, i) for k in range(len(sup_u)) for i in range(len(p2s))]
@@ -363,7 +383,27 @@ def phonopy_events(ctx):
                                dense=rec[True][0], denseMulti=rec[True][1], sparse=rec[False][0],
                                sparseMulti=rec[False][1], exact=bool(exact), addrOK=True, convertOK=True))
             ctx.count(("phonopy", entry, str(S), str(P), k, i))
+            if loose:
+                recl = {}
+                exl = True
+                for dense in (True, False):
+                    php, svecs, multi = loose[dense]
+                    if dense:
+                        m, a = int(multi[k, i, 0]), int(multi[k, i, 1])
+                        v = svecs[a:a + m]
+                    else:
+                        m = int(multi[k, i])
+                        v = svecs[k, i, :m]
+                    vu, res = xtal.project_to_unit(v @ ideal_pcell, orc.L, D0)
+                    exl = exl and res < 1e-6
+                    recl[dense] = ([[int(x) for x in A @ w] for w in vu], m)
+                events.append(dict(kind="impl", G=Gr, U=U.tolist(), Gs=Gs.tolist(), D=D, ds=ds, B=B,
+                                   dense=recl[True][0], denseMulti=recl[True][1], sparse=recl[False][0],
+                                   sparseMulti=recl[False][1], exact=bool(exl), addrOK=True, convertOK=True))
+                ctx.count(("phonopy-loose", entry, str(S), str(P), k, i))
+                n_loose += 1
     ctx.extra["phonopy_primitive_pairs"] = len(events)
+    ctx.extra["phonopy_loose_tolerance_pairs"] = n_loose
     return events
 
 
